@@ -250,9 +250,12 @@ static void op_del(char *obs, int which, void *obj, const char *name_h)
 }
 
 /* ---- scripted callbacks: PROG = step,step,... ; step = op:arg:arg... ---- */
+static struct cbctx *g_cb_cur;      /* the object whose verify / generate is running (set by the executor before the call) */
+static struct cbctx g_cb_alt;
 static int run_cb(jwt_t *jwt, jwt_config_t *config)
 {
-	struct cbctx *c = config->ctx;
+	/* the program is found through the executor's own pointer: the callback can then SAY what context it was handed */
+	struct cbctx *c = g_cb_cur ? g_cb_cur : config->ctx;
 	char prog[4096];
 	char *steps[64];
 	int ret = 0;
@@ -277,6 +280,8 @@ static int run_cb(jwt_t *jwt, jwt_config_t *config)
 		else if (!strcmp(a[0], "alg") && k >= 2) { config->alg = (jwt_alg_t)atoi(a[1]); obs_append(c->obs, "a"); }
 		else if (!strcmp(a[0], "getalg")) obs_append(c->obs, "jalg=%d", (int)jwt_get_alg(jwt));
 		else if (!strcmp(a[0], "ret") && k >= 2) { ret = atoi(a[1]); obs_append(c->obs, "r"); }
+		else if (!strcmp(a[0], "ctx")) obs_append(c->obs, "ctx=%d", config->ctx == NULL ? 0 : config->ctx == (void *)c ? 1 : 2);
+		else if (!strcmp(a[0], "setctx")) { config->ctx = &g_cb_alt; obs_append(c->obs, "x"); }
 		else obs_append(c->obs, "?");
 	}
 	return ret;
@@ -454,9 +459,10 @@ static void handle(char *line)
 		} else if (!strcmp(t[2], "claimdel") && n >= 4) { printf("rc=%d", jwt_checker_claim_del(ck, claim_of(t[3])) ? 1 : 0);
 		} else if (!strcmp(t[2], "claimget") && n >= 4) { putstr(jwt_checker_claim_get(ck, claim_of(t[3])));
 		} else if (!strcmp(t[2], "leeway") && n >= 5) { printf("rc=%d", jwt_checker_time_leeway(ck, claim_of(t[3]), (time_t)atoll(t[4])) ? 1 : 0);
-		} else if (!strcmp(t[2], "setcb") && n >= 4) {
+		} else if ((!strcmp(t[2], "setcb") || !strcmp(t[2], "setcb0")) && n >= 4) {
 			int rc;
-			if (!strcmp(t[3], "@ctx")) rc = jwt_checker_setcb(ck, NULL, &g_ckcb[c]);        /* context only: an installed callback stays */
+			if (!strcmp(t[2], "setcb0")) { strncpy(g_ckcb[c].prog, t[3], sizeof(g_ckcb[c].prog) - 1); rc = jwt_checker_setcb(ck, run_cb, NULL); }   /* no context */
+			else if (!strcmp(t[3], "@ctx")) rc = jwt_checker_setcb(ck, NULL, &g_ckcb[c]);        /* context only: an installed callback stays */
 			else if (!strcmp(t[3], "-")) { g_ckcb[c].prog[0] = 0; rc = jwt_checker_setcb(ck, NULL, NULL); }
 			else { strncpy(g_ckcb[c].prog, t[3], sizeof(g_ckcb[c].prog) - 1); rc = jwt_checker_setcb(ck, run_cb, &g_ckcb[c]); }
 			printf("rc=%d", rc ? 1 : 0);
@@ -469,7 +475,9 @@ static void handle(char *line)
 				if (tok) { tx = malloc(l1 + 1); memcpy(tx, tok, l1); tx[l1] = 0; }
 			}
 			g_ckcb[c].obs[0] = 0;
+			g_cb_cur = &g_ckcb[c];
 			int rc = jwt_checker_verify(ck, tx);
+			g_cb_cur = NULL;
 			printf("rc=%d err=%d msg=%d cb=[%s]", rc ? 1 : 0, jwt_checker_error(ck), jwt_checker_error_msg(ck)[0] ? 1 : 0, g_ckcb[c].obs);
 			if (getenv("EXEC_MSG")) printf(" text=%s", jwt_checker_error_msg(ck));
 			free(tx); free(tok);
@@ -489,9 +497,10 @@ static void handle(char *line)
 			printf("rc=%d", jwt_builder_setkey(bl, (jwt_alg_t)atoi(t[3]), it) ? 1 : 0);
 		} else if (!strcmp(t[2], "iat") && n >= 4) { printf("rc=%d", jwt_builder_enable_iat(bl, atoi(t[3])));
 		} else if (!strcmp(t[2], "offset") && n >= 5) { printf("rc=%d", jwt_builder_time_offset(bl, claim_of(t[3]), (time_t)atoll(t[4])) ? 1 : 0);
-		} else if (!strcmp(t[2], "setcb") && n >= 4) {
+		} else if ((!strcmp(t[2], "setcb") || !strcmp(t[2], "setcb0")) && n >= 4) {
 			int rc;
-			if (!strcmp(t[3], "@ctx")) rc = jwt_builder_setcb(bl, NULL, &g_blcb[b]);
+			if (!strcmp(t[2], "setcb0")) { strncpy(g_blcb[b].prog, t[3], sizeof(g_blcb[b].prog) - 1); rc = jwt_builder_setcb(bl, run_cb, NULL); }
+			else if (!strcmp(t[3], "@ctx")) rc = jwt_builder_setcb(bl, NULL, &g_blcb[b]);
 			else if (!strcmp(t[3], "-")) { g_blcb[b].prog[0] = 0; rc = jwt_builder_setcb(bl, NULL, NULL); }
 			else { strncpy(g_blcb[b].prog, t[3], sizeof(g_blcb[b].prog) - 1); rc = jwt_builder_setcb(bl, run_cb, &g_blcb[b]); }
 			printf("rc=%d", rc ? 1 : 0);
@@ -500,7 +509,9 @@ static void handle(char *line)
 		} else if ((!strcmp(t[2], "hdel") || !strcmp(t[2], "cdel")) && n >= 4) { op_del(obs, t[2][0] == 'h' ? 0 : 1, bl, t[3]); fputs(obs, stdout);
 		} else if (!strcmp(t[2], "gen")) {
 			g_blcb[b].obs[0] = 0;
+			g_cb_cur = &g_blcb[b];
 			char *tok = jwt_builder_generate(bl);
+			g_cb_cur = NULL;
 			printf("tok="); putstr(tok);
 			printf(" err=%d msg=%d cb=[%s]", jwt_builder_error(bl), jwt_builder_error_msg(bl)[0] ? 1 : 0, g_blcb[b].obs);
 			if (getenv("EXEC_MSG")) printf(" text=%s", jwt_builder_error_msg(bl));
